@@ -82,7 +82,7 @@ class SolveCtx:
         self.pre_ids = set()
 
 
-def build(u, policy, collect_path=None, limited=None):
+def build(u, policy, collect_path=None, limited=None, display_real=False):
     p = u.path
     if collect_path is None:
         collect_path = p.choose("collect_path")
@@ -143,9 +143,12 @@ def build(u, policy, collect_path=None, limited=None):
     def solver_display(it, problem_, params_):
         return u.obj("pygradflow.display.Display", cols=[], interval=params_.fields["display_interval"], timer=None, last_state=None, header=Opaque("str"))
 
-    A["pygradflow.display.solver_display"] = solver_display
+    if not display_real:
+        A["pygradflow.display.solver_display"] = solver_display
+        A["pygradflow.display.Display.row"] = lambda it, self_, state: Opaque("str")
+    else:
+        params.fields["report_rcond"] = p.choose("report_rcond")
     A["pygradflow.display.Display.should_display"] = lambda it, self_: it.path.choose("display this iteration")
-    A["pygradflow.display.Display.row"] = lambda it, self_, state: Opaque("str")
 
     def cb(it, self_, cbtype, *args, **kw):
         ctx.cbs.append((cbtype,) + tuple(args))
@@ -185,7 +188,12 @@ def build(u, policy, collect_path=None, limited=None):
             res = u.obj("pygradflow.step.step_control.StepControlResult", iterate=nxt, lamb=lam, active_set=None, rcond=None, accepted=False)
         elif k == 1:
             nxt = new_iterate("acc", evaluated=True)
-            res = u.obj("pygradflow.step.step_control.StepControlResult", iterate=nxt, lamb=lam, active_set=Opaque("active_set"), rcond=None, accepted=True)
+            aset, rc = Opaque("active_set"), None
+            if display_real:
+                aset = u.vec(it.path.fresh_name("active_set"), problem.fields["__n__"], kind="bool")
+                if params.fields["report_rcond"] and it.path.choose("rcond available"):
+                    rc = it.path.real("rcond")
+            res = u.obj("pygradflow.step.step_control.StepControlResult", iterate=nxt, lamb=lam, active_set=aset, rcond=rc, accepted=True)
         else:
             raise PyRaise(ExcVal(Exception, ("Line search failed to converge",)), origin="compute_step(Globalized line search)")
         ctx.steps.append((iterate, rho, dt, res))
@@ -567,6 +575,10 @@ def solve_unit(u, policy):
     hx, hy = head["iterate"].fields["x"], head["iterate"].fields["y"]
     u.ensure(ctx.restore is not None and ctx.restore[0] is hx and ctx.restore[1] is hy and ctx.restore[2] is head["iterate"].fields.get("bounds_dual"), "result(x,y,d)==restore_sol(last_accepted.x,.y,.bounds_dual)")
     u.ensure(res.fields["_x"] is not None and isinstance(res.fields["_x"], Opaque) and res.fields["_x"].tag == "x_user", "result.x_is_the_restored_x")
+    # the public accessors hand out exactly what was stored
+    u.ensure(u.get(res, "x") is res.fields["_x"] and u.get(res, "y") is res.fields["_y"] and u.get(res, "d") is res.fields["_d"], "result.x/.y/.d_accessors_return_the_restored_solution")
+    u.ensure(u.get(res, "y").tag == "y_user" and u.get(res, "d").tag == "d_user", "result.y/.d_are_the_restored_y,d")
+    u.ensure(u.get(res, "status") is status, "result.status_accessor==gate_status")
     ST = lambda n: u.enum("pygradflow.status.SolverStatus", n)
     if P["iteration_limit"] is not None:
         if status == ST("IterationLimit"):
@@ -593,3 +605,40 @@ def _mk(policy):
 
 for _p in POLICIES:
     _mk(_p)
+
+
+@unit("solve.display", ["C09", "C06"], [SOLVE, "pygradflow.display.solver_display", "pygradflow.display.iter_cols", "pygradflow.display.Display.__init__", "pygradflow.display.Display.row", "pygradflow.display.Display.header", "pygradflow.display.AttrColumn.content", "pygradflow.display.ActiveSetColumn.content", "pygradflow.display.StateData.__getitem__", "pygradflow.display.StateAttr.__call__", "pygradflow.display.IterateAttr.__call__", "pygradflow.display.BoldFormatter.__call__", "pygradflow.display.StringFormatter.__call__", "pygradflow.display.StepFormatter.__call__", "pygradflow.display.RCondFormatter.__call__", "pygradflow.iterate.Iterate.obj_nonlin", "pygradflow.iterate.Iterate.cons_nonlin"], config={"max_paths": 20000, "implicit_props": ["C06", "C09"]})
+def solve_display(u):
+    """the iteration display of Solver.solve with the REAL column set, formatters and StateData: whatever the
+    step outcome, the bounds / constraints / rcond configuration and the previous row, printing a row raises
+    nothing (every format code accepts the type of the value it is given) and solve() still ends normally"""
+    _ens = u.ensure
+    u.ensure = lambda goal, label, kind="ensures", desc="", props=None: _ens(goal, label, kind=kind, desc=desc, props=props or ["C09", "C06"])
+    ctx = build(u, "Constant", collect_path=False, limited=False, display_real=True)
+    spec = SolveLoop(u, ctx)
+    real_havoc = spec.havoc
+
+    def havoc(it, frame, site):
+        """the display object is mutated by the loop (last row shown): at an arbitrary iteration it holds either
+        nothing or the state of an arbitrary earlier row (its iteration number and active set are all a row reads)"""
+        real_havoc(it, frame, site)
+        disp = frame.locals.get("display")
+        if isinstance(disp, Obj):
+            k = it.path.choose_n(3, "previous row: none / with active set / without active set")
+            if k == 0:
+                disp.fields["last_state"] = None
+            else:
+                prev_iter = it.path.int("prev_iter")
+                aset = u.vec(it.path.fresh_name("prev_active_set"), ctx.problem.fields["__n__"], kind="bool") if k == 1 else None
+                disp.fields["last_state"] = u.obj("pygradflow.display.StateData", iterate=Opaque("earlier iterate"), step_result=Opaque("earlier step"), _entries={"iter": prev_iter, "active_set": aset})
+
+    spec.havoc = havoc
+    u.it.loop_specs[LOOP] = spec
+    kind, val = u.raised(lambda: u.method(ctx.solver, "solve", Opaque("x0"), Opaque("y0")))
+    if kind == "raise":
+        exc = val.exc
+        msg = exc.args[0] if exc.args else ""
+        deliberate = (not hasattr(exc.cls, "qualname")) and exc.cls is Exception and isinstance(msg, (str, Opaque)) and (isinstance(msg, Opaque) or msg.startswith(DELIBERATE))
+        u.ensure(deliberate, "display:raises_only{initial-point,lamb_max,line-search}", desc=f"escaping {exc!r} raised at {val.origin}")
+        return
+    u.cover("returned")
